@@ -12,6 +12,8 @@ ASSUMPTIONS = [
     'DECLINED: "the number of samples is at least what the FlyClient bound requires" - it depends on the numeric values of ln / pow, for '
     'which no bit-precise model is available to the solver',
     'sample_blocks with at most last_n + 3 missing blocks (loop bound: <= 3 samples), last_n in 1..3',
+    'O15.2: build_prove_request_content(_from_genesis) (real text) with sample_blocks replaced by its contract (decided by O15.1): start strictly below the last '
+    'block and not above it in difficulty, no samples when at most last-N blocks are missing, re-basing only onto a remembered header',
 ]
 CUTS = ['f64::powf / f64::log -> arbitrary value in the documented range', 'thread_rng().gen_range -> arbitrary value in range', 'log macros -> no-op']
 
@@ -28,7 +30,11 @@ def ex_sampling(repo):
 
 
 def obligations():
+    import C04
+    o152 = [o for o in C04.obligations() if o.ob_id == 'O4.3-request-rebase'][0]
+    o152.ob_id = 'O15.2-request-content'
     return [
+        o152,
         KModelOb('O15.1-multiply', 'sampling', 'multiply_range', 'multiply(u, ratio) for every u and every ratio in [0,1): result in [1, max(u,1)]', ex_sampling, 'u < 2^16 (32-bit model of U256; wider operands do not finish), all f64 ratios in [0,1)', cuts=CUTS, timeout=900, mem_gb=8, min_covers=1),
         KModelOb('O15.3-samples-count', 'sampling', 'samples_count', 'estimate_samples_count: 0 when at most last-N blocks are missing, otherwise within '
                  '[1, blocks - last_n], for every k (also NaN / infinite) and lambda', ex_sampling, 'all u64 / f64 / u32 inputs', cuts=CUTS,
